@@ -3,6 +3,11 @@
 import json
 props=[json.loads(l) for l in open('/verif/properties.jsonl')]
 claims=json.load(open('/verif/tools/claims.json'))
+import subprocess
+try:
+    hc=subprocess.run(["git","-C","/repo","log","--format=%h %s","--grep=^verif:"],capture_output=True,text=True).stdout.strip().splitlines()
+    if hc: claims["hook_commits"]=hc[::-1]
+except Exception: pass
 m={"version":1,
  "setup_cmd":"cd engine && GOFLAGS=-mod=mod GOPROXY=off GOSUMDB=off GOTOOLCHAIN=local go build -o ../bin/fvc .",
  "hooks":{"guard":"verif","enable":"-tags verif (comment-only contract files zz_contracts_verif.go in /repo packages; read by bin/fvc, they contain no executable code)","baseline_off_cmd":"cd /repo && GOFLAGS=-mod=mod go test -json -vet=off -count=1 -timeout 25m ./...","source_commits":claims.get("hook_commits",[]),"add_only":True},
